@@ -177,7 +177,7 @@ def run(ctx):
     for idx in ctx.cases(quick=40, thorough=320):
         rng = ctx.rng(idx)
         ctx.reseed_global(idx)
-        h = model.gen_history(rng, ndocs=(3, 60), boosts=rng.random() < 0.5, maxlen=rng.choice([6, 14, 40]),
+        h = model.gen_history(rng, ndocs=(3, 60), boosts=rng.random() < 0.5, maxlen=rng.choice([6, 14, 40]), burst=rng.choice([0.0, 0.1]),
                               delete_modes=("none", "none", "few", "many"))
         fb = rng.random() < 0.5
         wname, wobj, ref = gen_weighting(rng)
